@@ -141,7 +141,7 @@ func auCall(f func() error, limit time.Duration) (bool, string) {
 func TestVerifAbacoUDP(t *testing.T) {
 	VPoint = auVPoint
 	c0 := auCensus()
-	port := 46000 + int(vSeed%1000)
+	port := vFreePort("udp")
 	addr := fmt.Sprintf("127.0.0.1:%d", port)
 	as, err := NewAbacoSource()
 	if err != nil {
